@@ -14,3 +14,4 @@ import RagcModel.Model.Agc3
 import RagcModel.Model.Fasta
 import RagcModel.Model.FileIO
 import RagcModel.Model.Cli
+import RagcModel.Model.EndToEnd
